@@ -144,7 +144,11 @@ def signature(res):
         frames = [m for m in _FRAME.findall(res.get("stack", "")) if not m.startswith("eval.")]
         top = frames[0] if frames else ""
         if res.get("stage") == "fatal":
-            top = "fatal"      # stack overflow: frames repeat, the top one is arbitrary
+            # stack overflow: the top frame is arbitrary, the functions of the runaway recursion are the ones that repeat
+            count = {}
+            for m in frames:
+                count[m] = count.get(m, 0) + 1
+            top = "fatal:" + ",".join(sorted(m for m, c in count.items() if c >= 3))
         return ("panic", top)
     if res["outcome"] == "timeout":
         return ("timeout", "")
